@@ -65,7 +65,9 @@ class World:
                 pid += 1
         if "custom" in want:
             for name, seeds, key, base in (("ed", (b"M2", b"N", b"symmetric"), "ed/altM", "ed"), ("ed", (b"M", b"N2", b"symmetric"), "ed/altN", "ed"),
-                                           ("ed", (b"M", b"N", b"sym2"), "ed/altS", "ed"), ("1024", (b"", b"\x00", b"x" * 70), "1024/custom", None)):
+                                           ("ed", (b"M", b"N", b"sym2"), "ed/altS", "ed"), ("1024", (b"", b"\x00", b"x" * 70), "1024/custom", None),
+                                           # seed pairs whose concatenations coincide (M||N = "MNN" both ways)
+                                           ("ed", (b"M", b"NN", b"symmetric"), "ed/shift1", None), ("ed", (b"MN", b"N", b"symmetric"), "ed/shift2", None)):
                 self.pre("params %d %d %s %s %s" % (pid, self.groups[name], hx(seeds[0]), hx(seeds[1]), hx(seeds[2])))
                 self.ps[key] = self.mkps(pid, self.groups[name], "ed" if name == "ed" else "int", key, seeds=seeds)
                 self.ps[key].base = base
